@@ -259,6 +259,17 @@ def main(mod, argv):
         print("replay: property holds on this case")
         return 0
 
+    if argv and argv[0] == "--minimise":
+        path = argv[1]
+        with open(path if os.path.isabs(path) else os.path.join(VERIF, path)) as f:
+            rp = json.load(f)
+        from . import runner
+
+        runner.preload()
+        small, ok = mod.minimise(rp["case"], rp.get("kind"))
+        print(json.dumps({"property": mod.ID, "case": small}, indent=1, ensure_ascii=False))
+        return 0 if ok else 2
+
     tier = argv[0] if argv else os.environ.get("VERIF_TIER", "quick")
     if tier not in ("quick", "thorough"):
         print(f"unknown tier {tier}", file=sys.stderr)
@@ -292,20 +303,20 @@ def main(mod, argv):
             v["_from_replay"] = rp
             replay_viol.append(v)
 
-    # bucket
-    buckets = {}
-    for v in st.violations + replay_viol:
-        buckets.setdefault(signature(mod.ID, v), []).append(v)
-
-    new = []
+    # bucket: violations that match a listed finding are attributed to it; the rest are grouped by
+    # (component, kind) and represented by the case with the fewest features / smallest input
+    new_groups = {}
     known_hit = collections.Counter()
-    for sig, vs in sorted(buckets.items()):
-        v = min(vs, key=lambda x: len(json.dumps(x["case"], default=repr)))
+    for v in st.violations + replay_viol:
         ent = next((e for e in known if matches_known(mod.ID, v, e)), None)
         if ent is not None:
-            known_hit[ent["id"]] += len(vs)
+            known_hit[ent["id"]] += 1
         else:
-            new.append((sig, v, len(vs)))
+            new_groups.setdefault((v["component"], v["kind"]), []).append(v)
+    new = []
+    for key, vs in sorted(new_groups.items()):
+        v = min(vs, key=lambda x: (len(x.get("features") or []), len(json.dumps(x["case"], default=repr))))
+        new.append((signature(mod.ID, v), v, len(vs)))
 
     for e in known:
         if known_hit.get(e["id"]) or e.get("_reproduced"):
